@@ -77,7 +77,9 @@ theorem structure_regenerated :
     Gen.GroupBalancer.topicGuardSites = ["findMembersByTopic", "RackAffinityGroupBalancer.AssignGroups"] ∧
     Gen.GroupBalancer.topicListedBeforeIsPrefixSearch = true ∧
     Gen.GroupBalancer.topics32FreshPerMember = true ∧
-    Gen.GroupBalancer.topicMetadataReaders = (2, 2) := by decide
+    Gen.GroupBalancer.topicMetadataReaders = (2, 2) ∧
+    Gen.GroupBalancer.extractTopicsIsFirstSeenThenSorted = true ∧
+    Gen.GroupBalancer.makeAssignmentsRangesOverOwnTopics = true := by decide
 
 /-! ## 1. Range -/
 
